@@ -11,6 +11,7 @@ import (
 	"fmt"
 	"sort"
 	"strings"
+	"sync/atomic"
 	"time"
 
 	"go.mongodb.org/mongo-driver/bson"
@@ -498,7 +499,7 @@ func applyOps(doc bson.D, u bson.D, isInsert bool) bson.D {
 			}
 		case "$currentDate":
 			for _, f := range fields {
-				doc = setPath(doc, f.Key, primitive.NewDateTimeFromTime(time.Now()))
+				doc = setPath(doc, f.Key, primitive.DateTime(serverNowMillis()))
 			}
 		case "$rename":
 			for _, f := range fields {
@@ -574,3 +575,22 @@ func unsupportedReply(what string) bson.D {
 }
 
 func describe(p interface{}) string { return fmt.Sprint(p) }
+
+var lastServerMillis int64
+
+// serverNowMillis is the stand-in's clock for $currentDate: wall time, but strictly increasing
+// from call to call. Two updates of one document within the same millisecond - routine for an
+// in-memory stand-in, practically impossible through a network - would otherwise leave the
+// document unchanged (nModified 0) depending on wall-clock luck.
+func serverNowMillis() int64 {
+	for {
+		last := atomic.LoadInt64(&lastServerMillis)
+		now := time.Now().UnixMilli()
+		if now <= last {
+			now = last + 1
+		}
+		if atomic.CompareAndSwapInt64(&lastServerMillis, last, now) {
+			return now
+		}
+	}
+}
